@@ -85,7 +85,9 @@ ScanRegex(B, L, depth) ==
          LET T == NewToken(Backup(N.L), "regex")
              A == Ignore(Accept(B, T.L, LAMBDA c : c = 47).L)
              F == AcceptAll(B, A, IsFlag)
-         IN  [tok |-> T.tok, L |-> IF F.ok THEN NewToken(F.L, "flags").L ELSE F.L]
+         \* the flags i, m, s follow the closing slash; their byte range is kept with the token
+         IN  [tok |-> [ty |-> "regex", s |-> T.tok.s, e |-> T.tok.e, fs |-> A.cur, fe |-> F.L.cur],
+              L |-> IF F.ok THEN NewToken(F.L, "flags").L ELSE F.L]
     ELSE IF N.r \in {40, 91, 123} THEN ScanRegex(B, N.L, depth + 1)
     ELSE IF N.r \in {41, 93, 125} THEN ScanRegex(B, N.L, depth - 1)
     ELSE IF N.r = 92 THEN (LET M == NextRune(B, N.L) IN IF M.r # EOFR /\ M.r # 10 THEN ScanRegex(B, M.L, depth) ELSE ErrToken(M.L))
